@@ -104,6 +104,9 @@ class BufferedReader(io.RawIOBase):
             self.cache(bucket)
             sz = min(todo, self.buffersize - offset)
             buf.write(self.buffers[bucket].data[offset:].tobytes())
+            if self.buffers[bucket].size < self.buffersize:
+                # a short bucket is the last one: nothing more to read
+                break
             bucket += self.buffersize
             offset = 0
             todo -= sz
